@@ -31,12 +31,12 @@ end
 /-- The scan skips a printed legacy bracket. -/
 def ClsScan (fl : Flags) : Prop :=
   fl.unicodeSets = false → ∀ (neg : Bool) (items : List ES.ClassItem), items.all lexItem = true →
-    Scans fl (printClass neg items) TrEq
+    Scans fl (printClass neg items) SEq
 
 /-- The scan skips a printed class set. -/
 def VClsScan (fl : Flags) : Prop :=
   fl.unicodeSets = true → ∀ (neg : Bool) (op : ES.VSetOp) (ops : List ES.VOp), lexVOps ops = true →
-    Scans fl (printVClass neg op ops) TrEq
+    Scans fl (printVClass neg op ops) SEq
 
 section
 variable {fl : Flags}
@@ -47,9 +47,9 @@ theorem scans_wrap {t : List Nat} {n : ES.Node} (h : Scans fl t (NodeRel n)) : S
   exact this.mono (fun a d ⟨b, h1, c, h2, h3⟩ => (h2.tr_left h1).tr_right h3)
 
 /-- A leaf: some text that leaves the tracked fields alone. -/
-theorem scans_leaf {t : List Nat} {n : ES.Node} (h : Scans fl t TrEq) (h1 : ES.countParens n = 0)
+theorem scans_leaf {t : List Nat} {n : ES.Node} (h : Scans fl t SEq) (h1 : ES.countParens n = 0)
     (h2 : ∀ g, ES.namedGroups n g = []) : Scans fl t (NodeRel n) :=
-  h.mono (fun _ _ h => NodeRel.leaf h1 h2 h)
+  h.mono (fun _ _ h => NodeRel.leaf h1 h2 h.tr)
 
 /-- The four contexts of a node that is wrapped in some of them. -/
 theorem scans_ctx {n : ES.Node} {t : List Nat} (h : Scans fl t (NodeRel n))
@@ -128,7 +128,7 @@ theorem scans_transparent {opn : List Nat} {n m : ES.Node} (ho : Scans fl opn Tr
   simp only [List.append_assoc] at this ⊢
   exact this.mono (fun a d ⟨b, r1, c, r2, r3⟩ => ((r2.tr_left r1).tr_right r3).congr h1 h2)
 
-theorem scans_bref (k : Nat) : Scans fl ([0x5C] ++ printDec k) TrEq := by
+theorem scans_bref (k : Nat) : Scans fl ([0x5C] ++ printDec k) SEq := by
   cases h : printDec k with
   | nil => exact absurd h (printDec_ne_nil k)
   | cons d tl => exact scans_esc d tl (fun c hc => plain_printDec k c (by rw [h]; simp [hc]))
@@ -211,7 +211,7 @@ theorem scan_node (hc : ClsScan fl) (hv : VClsScan fl) (n : ES.Node) :
     simp only [lexOK] at hl
     have h1 : Scans fl (pr .atom n ++ printQuant mn mx g) (NodeRel (.quant mn mx g n)) :=
       ((ih hm hl .atom).append (scans_printQuant (fl := fl) mn mx g)).mono
-        (fun _ _ ⟨_, r1, r2⟩ => (r1.tr_right r2).congr (by simp [ES.countParens])
+        (fun _ _ ⟨_, r1, r2⟩ => (r1.tr_right r2.tr).congr (by simp [ES.countParens])
           (fun g => by simp [ES.namedGroups]))
     refine scans_ctx h1 ?_
     intro ctx; cases ctx <;> simp [pr]
